@@ -84,7 +84,9 @@ def all_signals(obj):
 
 
 def map_meta(m):
-    return (live_all(m), live_windows(m), live_resources(m), m.addr_width, m.data_width, m.alignment)
+    # align_to(0) returns the placement cursor (rounded to the map alignment) without observable effect
+    return (live_all(m), live_windows(m), live_resources(m), m.addr_width, m.data_width, m.alignment, m.align_to(0),
+            [(tuple(w[2]), w[1]) for w in m.window_patterns()])
 
 
 def b_mux(case, rng, P):
